@@ -20,21 +20,21 @@ import (
 
 // BidSpec describes one bid a relay offers.
 type BidSpec struct {
-	Value       uint64 `json:"value"`
-	Builder     int    `json:"builder"`      // builder identity (key number)
-	Header      int    `json:"header"`       // payload identity: relays offering the same header offer the same payload
-	ZeroFeeRec  bool   `json:"zero_fee_recipient,omitempty"`
-	BadTime     bool   `json:"wrong_timestamp,omitempty"`
-	BadSig      bool   `json:"bad_signature,omitempty"`
-	Empty       bool   `json:"empty,omitempty"`
-	Nil         bool   `json:"nil,omitempty"`
+	Value      uint64 `json:"value"`
+	Builder    int    `json:"builder"` // builder identity (key number)
+	Header     int    `json:"header"`  // payload identity: relays offering the same header offer the same payload
+	ZeroFeeRec bool   `json:"zero_fee_recipient,omitempty"`
+	BadTime    bool   `json:"wrong_timestamp,omitempty"`
+	BadSig     bool   `json:"bad_signature,omitempty"`
+	Empty      bool   `json:"empty,omitempty"`
+	Nil        bool   `json:"nil,omitempty"`
 }
 
 // Served is one answer a relay gave.
 type Served struct {
-	At   time.Duration
-	Bid  *BidSpec // nil for error / nil bid
-	Err  bool
+	At  time.Duration
+	Bid *BidSpec // nil for error / nil bid
+	Err bool
 }
 
 // Relay is a scripted MEV relay (builder client).
